@@ -94,14 +94,14 @@ PROPS = {
              exact_ops=["g.exportimport", "m.block", "d.bb", "m.infl", "v.*"],
              thorough_seeds=8),
     "C01": P(["C4E.Props.C01", "C4E.Tie.C01"], ["C4E.Props.C01"],
-             [("minter", 150, 2000), ("minterupd", 90, 1300), ("distr", 150, 2000), ("distrfaults", 80, 1000), ("vest", 150, 2000), ("split", 80, 1000), ("sig", 40, 400)],
-             {"m.block": ["amt", "ev", "supply"], "d.bb": ["main", "bal", "burned"], "v.createPool": ["bal"], "v.withdraw": ["bal"], "v.send": ["bal"],
+             [("minter", 150, 2000), ("minterupd", 90, 1300), ("distr", 150, 2000), ("distrfaults", 80, 1000), ("app", 80, 1200), ("vest", 150, 2000), ("split", 80, 1000), ("sig", 40, 400)],
+             {"m.block": ["amt", "ev", "supply"], "d.bb": ["main", "bal", "burned"], "a.block": ["amt", "mst", "states", "main", "bal", "burned"], "v.createPool": ["bal"], "v.withdraw": ["bal"], "v.send": ["bal"],
               "v.createVA": ["bal"], "v.split": ["bal"], "v.move": ["bal"], "v.moveDenoms": ["bal"]},
-             exact_ops=["m.block", "d.bb"]),
+             exact_ops=["m.block", "d.bb", "a.block"]),
     "C10": P(["C4E.Props.C10", "C4E.Tie.C10"], ["C4E.Props.C10"],
-             [("minter", 150, 2500), ("minterupd", 150, 2500), ("distr", 120, 2000), ("distrfaults", 120, 2000), ("distrupd", 100, 1500), ("genesis", 25, 300)],
-             {"m.block": [], "d.bb": [], "m.update": [], "d.update": [], "m.init": [], "d.setparams": [], "g.exportimport": []},
-             exact_ops=["m.block", "d.bb"],
+             [("minter", 150, 2500), ("minterupd", 150, 2500), ("distr", 120, 2000), ("distrfaults", 120, 2000), ("distrupd", 100, 1500), ("app", 80, 1200), ("genesis", 25, 300)],
+             {"m.block": [], "d.bb": [], "a.block": [], "m.update": [], "d.update": [], "m.init": [], "d.setparams": [], "g.exportimport": []},
+             exact_ops=["m.block", "d.bb", "a.block"],
              assumptions=["amounts below 10^36, periods and steps of at least one second, multipliers at most 1 (generator ranges)",
                           "panics inside cosmos-sdk internals that the model does not represent (store/codec Must*, staking BondedRatio, iavl) are seen only by the differential runs"]),
     "C16": P(["C4E.Props.C16", "C4E.Tie.C16"], ["C4E.Props.C16"],
